@@ -4,6 +4,7 @@ import (
 	"fmt"
 	"go/token"
 	"go/types"
+	"regexp"
 	"strings"
 
 	"golang.org/x/tools/go/ssa"
@@ -485,6 +486,135 @@ func c10(c *ctx) {
 		}
 	}
 	c10filters(c)
+	c10cursor(c)
+	r.Rule("R6", "ALIAS", "a read-only view shares no mutable component with the live store: every field of the Store built by NewReadOnly is constructed there from the snapshot readers; only log, db, metrics, config and the version number come from the receiver", 8)
+	c.ruleReadOnlyIsolated("R6")
+}
+
+// ruleReadOnlyIsolated (C10.R6 / C16.R3): the Store returned by NewReadOnly must not alias the live store's state store,
+// commitment tree, indexer, writer or locks. A view that borrows s.sc serves roots and proofs of the block being built.
+func (c *ctx) ruleReadOnlyIsolated(R string) {
+	r := c.r
+	newRO := c.fn("store.(*Store).NewReadOnly")
+	storeT := c.p.Named("store", "Store")
+	if newRO == nil || !r.Anchor(storeT != nil, "store.Store") {
+		return
+	}
+	shared := map[string]string{"log": "logger", "db": "the database handle (reads go through fresh snapshots)", "metrics": "metrics sink", "config": "immutable configuration", "version": "a number, compared only"}
+	re := regexp.MustCompile(`\$0\.([A-Za-z_][A-Za-z0-9_]*)`)
+	n := 0
+	instrs(newRO, func(in ssa.Instruction) {
+		fv, base, val := storeField(in)
+		if fv == nil || !isFreshAlloc(base) {
+			return
+		}
+		nt := namedOf(base.Type())
+		if nt == nil || nt.Obj().Pkg() != storeT.Obj().Pkg() {
+			return
+		}
+		fname := fv.Name()
+		if nt.Obj() != storeT.Obj() {
+			fname = nt.Obj().Name() + "." + fname // a component built in place (the Indexer)
+		}
+		n++
+		pth := c.p.path(val)
+		var borrowed []string
+		for _, m := range re.FindAllStringSubmatch(pth, -1) {
+			if _, ok := shared[m[1]]; !ok {
+				borrowed = append(borrowed, m[1])
+			}
+		}
+		r.Check(len(borrowed) == 0, R+"/NewReadOnly/field/"+fname, c.p.Pos(in.Pos()), "built from "+pth,
+			fmt.Sprintf("the read-only view's %s is built from the live store's %s (%s): the view would observe, or share mutable state with, the block under construction instead of the committed version", fname, strings.Join(borrowed, ", "), pth))
+	})
+	r.Check(n >= 6, R+"/NewReadOnly/fields", c.p.Pos(newRO.Pos()), fmt.Sprintf("%d fields of the view examined", n), fmt.Sprintf("only %d field initialisations of the read-only Store found in NewReadOnly (rule needs re-reading)", n))
+}
+
+// pebbleIterOp classifies a call on *pebble.Iterator: "Move" (positions the cursor on another entry), "Key" (examines the
+// entry under the cursor), "" otherwise.
+func pebbleIterOp(cc *ssa.CallCommon) string {
+	sc := cc.StaticCallee()
+	if sc == nil || sc.Signature.Recv() == nil || sc.Pkg == nil || !strings.HasPrefix(sc.Pkg.Pkg.Path(), "github.com/cockroachdb/pebble") {
+		return ""
+	}
+	if !strings.HasSuffix(sc.Signature.Recv().Type().String(), ".Iterator") {
+		return ""
+	}
+	switch sc.Name() {
+	case "SeekGE", "SeekLT", "SeekGEWithLimit", "SeekLTWithLimit", "SeekPrefixGE", "First", "Last", "Next", "Prev", "NextPrefix", "NextWithLimit", "PrevWithLimit":
+		return "Move"
+	case "Key":
+		return "Key"
+	}
+	return ""
+}
+
+// c10cursor (C10.R5): the versioned iterator never steps over an entry it did not look at. Every movement of the raw
+// pebble cursor inside advanceToNextKey/first (helpers step and rewindToLatestVersion inlined) happens either first, after
+// a movement that reported "no entry" (false), or after the entry the previous movement landed on was examined with Key().
+// A seek that lands on the newest visible version followed by an unconditional step silently drops that version.
+func c10cursor(c *ctx) {
+	r := c.r
+	r.Rule("R5", "PAIR", "cursor discipline of the versioned iterator: between two successful movements of the raw pebble cursor (Seek*/Next/Prev, helpers inlined) the entry landed on is examined with Key(); an entry is never stepped over unseen", 2)
+	adv := c.fn("store.(*VersionedIterator).advanceToNextKey")
+	first := c.fn("store.(*VersionedIterator).first")
+	step := c.fnQuiet("store.(*VersionedIterator).step")
+	rewind := c.fnQuiet("store.(*VersionedIterator).rewindToLatestVersion")
+	if adv == nil || first == nil {
+		return
+	}
+	// helpers: a store function that (transitively, through static calls) moves the cursor is analysed in place; one that
+	// only examines the entry counts as an examination
+	moves, looks := map[*ssa.Function]bool{}, map[*ssa.Function]bool{}
+	for changed := true; changed; {
+		changed = false
+		for _, g := range c.p.Funcs {
+			if pkgShort(g) != "store" {
+				continue
+			}
+			instrs(g, func(in ssa.Instruction) {
+				cc := callCommon(in)
+				if cc == nil {
+					return
+				}
+				op := pebbleIterOp(cc)
+				sc := cc.StaticCallee()
+				if (op == "Move" || (sc != nil && moves[origin(sc)])) && !moves[g] {
+					moves[g], changed = true, true
+				}
+				if (op == "Key" || (sc != nil && looks[origin(sc)])) && !looks[g] {
+					looks[g], changed = true, true
+				}
+			})
+		}
+	}
+	_, _ = step, rewind
+	ev := func(in ssa.Instruction) string {
+		if cc := callCommon(in); cc != nil {
+			if op := pebbleIterOp(cc); op != "" {
+				return op
+			}
+			if sc := cc.StaticCallee(); sc != nil && looks[origin(sc)] && !moves[origin(sc)] {
+				return "Key"
+			}
+		}
+		return ""
+	}
+	for _, f := range []*ssa.Function{adv, first} {
+		c.mpt(mptSpec{
+			rule: "R5", fn: f, events: evSet{}, extraEv: ev,
+			resets: map[string][]string{"Move": {"Key"}},
+			inline: func(g *ssa.Function) bool { return moves[g] && pkgShort(g) == "store" },
+			target: func(in ssa.Instruction, st *PState, e *pathEngine) string {
+				if cc := callCommon(in); cc != nil && pebbleIterOp(cc) == "Move" {
+					return "cursor-move"
+				}
+				return ""
+			},
+			reqs:      func(string) []string { return []string{"!seen:Move|seen:Key|Move#0=F"} },
+			minTarget: 2,
+		})
+	}
 }
 
 // c10filters (C10.R4): a reader at version v must not filter out blocks that contain version v.
@@ -557,7 +687,7 @@ func c10filters(c *ctx) {
 // C16 — Merkle proofs (two necessary conditions).
 func c16(c *ctx) {
 	r := c.r
-	r.Explain = "Two structural necessary conditions of proof completeness/soundness: (R1) the commitment tree is read (NewReadOnly, used for historical proofs) from the same key prefix it is written under (Root()); (R2) VerifyProof can return true only after the recomputed root equalled the given root and the proof has at least two nodes."
+	r.Explain = "Structural necessary conditions of proof completeness/soundness: (R1) the commitment tree is read (NewReadOnly, used for historical proofs) from the same key prefix it is written under (Root()); (R2) VerifyProof can return true only after the recomputed root equalled the given root and the proof has at least two nodes; (R3) the read-only view that serves historical proofs builds its own tree and shares nothing mutable with the live store."
 	r.NotCovered = []string{"soundness of VerifyProof's re-traversal for an honest proof of key A presented for key B (value-level; observed defect F4, not claimed)", "panic-freedom on malformed proofs", "hash collision resistance", "that GetMerkleProof produces a verifying proof (dynamic)"}
 	r.Trusted = []string{"crypto.Hash"}
 	root := c.fn("store.(*Store).Root")
@@ -615,4 +745,6 @@ func c16(c *ctx) {
 			minTarget: 1,
 		})
 	}
+	r.Rule("R3", "ALIAS", "proofs for a committed height come from that height's tree: the read-only view builds its own commitment tree from the snapshot at the query version and borrows no mutable component of the live store (whose tree holds the block under construction)", 8)
+	c.ruleReadOnlyIsolated("R3")
 }
